@@ -290,6 +290,7 @@ def total_scan(ctx):
     r.floor(E, n, 2, "Result::unwrap sites in scan_diff")
 
     filter_is_only_a_filter(ctx, "R19-f")
+    scanned_ranges_are_passed_on_unchanged(ctx, "R19-g")
 
 
 def filter_is_only_a_filter(ctx, rid):
@@ -351,3 +352,37 @@ def filter_is_only_a_filter(ctx, rid):
             r.violation(rid, "scan_diff extracts text with a pattern that contains the --filter expression",
                         "%s captures with a pattern derived from the `file_filter` parameter" % short(h.id), [c.loc(), tainted[0].loc()])
     r.floor(rid, n, 2, "capturing regex applications in scan_diff and its helpers")
+
+
+def scanned_ranges_are_passed_on_unchanged(ctx, rid):
+    """R19-g: what rustfmt is asked to format is what scan_diff read out of the patch"""
+    from common import expr_key
+    p, r = ctx.p, ctx.r
+    r.rule(rid, "format-diff::run hands the two results of scan_diff — the set of files and the list of (file, range) — to "
+                "run_rustfmt as they are (through `?`, borrows and derefs only): no step in between drops, merges, sorts or "
+                "rewrites them.  The line set of `--file-lines` is then exactly the post-image ranges of the hunk headers; an "
+                "interval-merging step that gets one case wrong (a range nested in an earlier, longer one) silently shortens it")
+    f = p.fns.get("rustfmt_format_diff::run")
+    if f is None:
+        r.undecidable(rid, "format-diff::run not found")
+        return
+    n = 0
+    for c in f.calls():
+        if not c.name.endswith("rustfmt_format_diff::run_rustfmt"):
+            continue
+        n += 1
+        bad = []
+        for a in c.args:
+            if a[0] == "k":
+                continue
+            d = f.derived_from(a[1][0])
+            via = [x for x in d["calls"] if not any(t in x.name for t in ("scan_diff", "Try>::branch", "Deref>::deref", "as_ref", "as_slice",
+                                                                       "Borrow", "io::stdin", "String as std::ops::Deref"))]
+            if not any(x.name.endswith("scan_diff") for x in d["calls"]) or via:
+                bad.append(sorted({short(x.name) for x in via})[:3] or ["not from scan_diff"])
+        r.instance(rid, "run: run_rustfmt(scan_diff(..))", "violation" if bad else "ok", c.loc())
+        if bad:
+            r.violation(rid, "format-diff::run transforms the scanned files / ranges before handing them to rustfmt",
+                        "an argument of run_rustfmt passes through %s: the requested line set is no longer the one the hunk headers "
+                        "announce" % bad[0], [c.loc()])
+    r.floor(rid, n, 1, "run_rustfmt calls in format-diff::run")
